@@ -22,13 +22,13 @@ def run(chk):
         jobs += [dict(name='threads2-preempt3', threads=2, max_preempt=3, timeout=1500),
                  dict(name='threads3-preempt2', threads=3, max_preempt=2, timeout=1500),
                  dict(name='threads3-preempt2-evicting-cache', threads=3, max_preempt=2, small_cache=2, warm=2, timeout=1500),
-                 dict(name='history-seq7-cap2', seq=7, filters=4, capacity=2, timeout=1500),
-                 dict(name='history-seq6-cap3', seq=6, filters=4, capacity=3, timeout=1500)]
+                 dict(name='history-seq6-cap2', seq=6, filters=4, capacity=2, timeout=2400),
+                 dict(name='history-seq6-cap3', seq=6, filters=4, capacity=3, timeout=2400)]
     if chk.only:
         jobs = [j for j in jobs if chk.only in j['name']]
     chk.bounds = dict(threads='2 (quick) / 2-3 (thorough)', preemptions='<= 2 (quick) / <= 3 (thorough)',
                       granularity='every source line of filter_function, _filter_function, _FnWrapper.__init__/get/__del__',
-                      histories='all sequences of 5 (quick) / 6-7 (thorough) evaluations over 3-4 distinct filters with a cache of 2-3 entries, each step through Grid.filter or a previously obtained function; one concrete history of 1500 distinct filters with a hot filter re-used every 7 steps and functions held across 1500 later compilations (real capacity 500)')
+                      histories='all sequences of 5 (quick) / 6 (thorough) evaluations over 3-4 distinct filters with a cache of 2-3 entries, each step through Grid.filter or a previously obtained function; one concrete history of 1500 distinct filters with a hot filter re-used every 7 steps and functions held across 1500 later compilations (real capacity 500)')
     chk.assumptions = ['a context switch between two lines of the traced functions is the scheduling granularity (switches inside one line, inside pyparsing or inside CPython are not modelled)',
                        'functools.lru_cache itself is thread safe (CPython); in the evicting-cache scenarios it is re-created with capacity 2 (same code, smaller capacity)',
                        'each thread compiles a different, previously unseen filter', 'free-threaded builds are out of scope']
